@@ -159,6 +159,15 @@ static void nested_draw(World &w, TaskState &t, PrngObj &m, uint8_t out32[32]) {
     c.gen = save_gen; c.genbuf = save_buf; c.gensize = save_size; c.dev_req = save_req; c.sentinel = save_sent;
 }
 
+// hashes of the whole 32-byte blocks just before offset e of the running generate call's output buffer, as they are now
+static int snap_blocks(TaskState &t, long e, uint64_t snap[4]) {
+    CurOp &c = t.cur;
+    if (!c.genbuf || e < 32) return 0;
+    size_t last = (size_t)e / 32; int n = 0;
+    for (size_t b = last >= 4 ? last - 4 : 0; b < last && n < 4; b++) snap[n++] = hash_bytes(c.genbuf + 32 * b, 32, 0x5A9 + b);
+    return n;
+}
+
 extern "C" size_t sim_device(void *user_data, unsigned char *buf, size_t size) {
     PrngObj *o = (PrngObj *)user_data;
     TaskState &t = *o->owner;
@@ -182,6 +191,7 @@ extern "C" size_t sim_device(void *user_data, unsigned char *buf, size_t size) {
     memcpy(r.buf, tmp, (size_t)k);
     memcpy(buf, tmp, (size_t)k);   // exactly k bytes are written
     r.emitted = scan_emitted(t);
+    r.nsnap = snap_blocks(t, r.emitted, r.snap);
     if (k == 32) bump(w, CT_F_DELIVERY_FULL); else if (k == 0) bump(w, CT_F_DELIVERY_ZERO); else bump(w, CT_F_DELIVERY_SHORT);
     w.ehash = mix2(w.ehash, 0xDE00 + (uint64_t)k);
     PrngObj *g = c.gen ? c.gen : o;
@@ -207,6 +217,7 @@ static const std::vector<int> *cur_script(TaskState &t) {
 void os_begin_request(TaskState &t) {
     CurOp &c = t.cur;
     c.os_active = true; c.os_auto = false; c.os_pos = 0; c.os_terminal = -1; c.os_calls = 0; c.os_extra = 0; c.os_have_ok = false;
+    c.os_stream_pos = 0; c.os_delivered = 0; memset(c.os_last_ok, 0, 32);
     c.os_req++;
 }
 static void os_push_req(TaskState &t, long emitted) {
@@ -216,6 +227,7 @@ static void os_push_req(TaskState &t, long emitted) {
     memset(r.buf, 0, 32);
     if (r.sys_ok) memcpy(r.buf, c.os_last_ok, 32);
     r.emitted = emitted;
+    r.nsnap = c.req_nsnap; memcpy(r.snap, c.req_snap, sizeof r.snap);
     if (c.gen) c.gen->reqs.push_back(r);
 }
 void os_end_request(TaskState &t, int ret, const uint8_t *buf) {
@@ -247,7 +259,7 @@ static void os_terminal(TaskState &t, int term) {
 static void os_enter(TaskState &t) {
     CurOp &c = t.cur;
     if (!c.os_active) { os_begin_request(t); c.os_auto = true; }
-    if (c.os_calls == 0 && c.os_terminal < 0) c.req_emitted = scan_emitted(t);
+    if (c.os_calls == 0 && c.os_terminal < 0) { c.req_emitted = scan_emitted(t); c.req_nsnap = snap_blocks(t, c.req_emitted, c.req_snap); }
 }
 // The entropy call proper. mode: 0 getrandom/syscall (returns len), 1 getentropy (returns 0), 2 read
 extern "C" long sim_os_entropy(void *buf, size_t len, int mode) {
@@ -269,33 +281,43 @@ extern "C" long sim_os_entropy(void *buf, size_t len, int mode) {
     if (el < 0) el = 0;
     w.ehash = mix2(w.ehash, 0x0500 + (uint64_t)el);
     t.now_ns += w.plan->clock_step_ns;   // simulated time passes with every OS call
-    if (el == 0) {
-        uint8_t tmp[64];
-        fill_bytes(tmp, 32, c.op ? c.op->dseed : 1, 0x5000 + c.os_req * 256 + (uint64_t)c.os_calls);
-        if (w.plan->os_echo && len >= 32 && ((c.op ? c.op->dseed : 0) >> 12 & 3) == 0) {
-            memcpy(tmp, buf, 32);           // the OS happens to deliver exactly the bytes already in the buffer
+    if (el == 0 || el >= 2000) {
+        // The OS entropy device is a byte stream (per request): every successful call delivers the next bytes of it. A full
+        // answer (el == 0) satisfies the whole request of this call; a short read (el >= 2000, /dev/urandom build only)
+        // delivers fewer. Whether the library re-reads all 32 bytes or accumulates the pieces, a correct result is the last
+        // 32 bytes delivered in this request.
+        size_t want = std::min<size_t>(len, 4096), k = want;
+        bool full = (el == 0);
+        if (!full) { k = std::min<size_t>((size_t)(el - 2000), want ? want - 1 : 0); if (want <= 1) { k = want; full = true; } }
+        std::vector<uint8_t> data(k);
+        for (size_t i = 0; i < k; i++) {
+            uint64_t pos = c.os_stream_pos + i;
+            uint8_t blk[64];
+            fill_bytes(blk, 64, c.op ? c.op->dseed : 1, 0x5000 + c.os_req * 4096 + pos / 64);
+            data[i] = blk[pos % 64];
+        }
+        if (full && w.plan->os_echo && k >= 32 && ((c.op ? c.op->dseed : 0) >> 12 & 3) == 0) {
+            memcpy(data.data(), buf, k);        // the OS happens to deliver exactly the bytes already in the buffer
             bump(w, CT_F_OS_ECHO);
         }
-        memcpy(buf, tmp, std::min<size_t>(len, 32));
-        memcpy(c.os_last_ok, tmp, 32); c.os_have_ok = true;
+        if (k) memcpy(buf, data.data(), k);
+        c.os_stream_pos += k;
+        for (size_t i = 0; i < k; i++) { memmove(c.os_last_ok, c.os_last_ok + 1, 31); c.os_last_ok[31] = data[i]; }
+        c.os_delivered += k;
+        if (!full) {
+            bump(w, CT_F_OS_SHORTREAD);
+            sim_point(SK_OS, 21);
+            return (long)k;
+        }
+        c.os_have_ok = c.os_delivered >= 32;
         bump(w, CT_F_OS_OK);
         if (w.plan->os_stale_errno) { errno = (c.op && (c.op->dseed & 8)) ? EAGAIN : EINTR; bump(w, CT_F_OS_STALE_ERRNO); }
         else errno = c.entry_errno;
         bool first = c.os_terminal < 0;
         if (first) os_terminal(t, 0);
-        else if (c.gen && !c.gen->reqs.empty()) memcpy(c.gen->reqs.back().buf, tmp, 32);
+        else if (c.gen && !c.gen->reqs.empty()) memcpy(c.gen->reqs.back().buf, c.os_last_ok, 32);
         sim_point(SK_OS, 20);
-        return mode == 1 ? 0 : (long)len;
-    }
-    if (el >= 2000) { // short read (devurandom only)
-        size_t k = (size_t)(el - 2000);
-        if (k > len) k = len;
-        uint8_t tmp[32];
-        fill_bytes(tmp, 32, c.op ? c.op->dseed : 1, 0x7000 + c.os_req * 256 + (uint64_t)c.os_calls);
-        memcpy(buf, tmp, k);
-        bump(w, CT_F_OS_SHORTREAD);
-        sim_point(SK_OS, 21);
-        return (long)k;
+        return mode == 1 ? 0 : (long)k;
     }
     if (w.plan->os_scribble) { fill_bytes((uint8_t *)buf, std::min<size_t>(len, 32), 0xBADBAD, (uint64_t)c.os_calls); bump(w, CT_F_OS_SCRIBBLE); }
     if (el == EINTR) bump(w, CT_F_OS_EINTR);
@@ -854,6 +876,33 @@ static void prng_status_check(World &w, PrngObj &o, int rc, bool any_req, const 
 static void after_generate(World &w, TaskState &t, PrngObj &o, const uint8_t *outp, size_t size, int model_prop, bool model_on) {
     (void)t;
     bump(w, CT_P_PRNG_GEN);
+    // Was "bytes already written when the entropy source was asked" a faithful measure of bytes emitted? Only if what
+    // was in the buffer then is what the call finally returned there (a library that zero-fills the buffer first, or uses
+    // it as scratch, writes bytes that are not output). If not, fall back to what is certain from totals alone.
+    bool precise = true;
+    for (auto &r : o.reqs) {
+        if (r.emitted < 0) continue;
+        size_t last = (size_t)r.emitted / 32; int n = 0;
+        for (size_t b = last >= 4 ? last - 4 : 0; b < last && n < r.nsnap; b++, n++)
+            if (32 * b + 32 <= size && hash_bytes(outp + 32 * b, 32, 0x5A9 + b) != r.snap[n]) precise = false;
+        if ((size_t)r.emitted >= size) precise = false;   // a request always precedes a block: a buffer that is already all written is not being filled progressively
+    }
+    if (!precise) {
+        size_t nreq = o.reqs.size();
+        uint64_t used = o.since + 32 * o.feeds_since;
+        bool bad = false; std::string why;
+        if (nreq == 0) { o.since += size; if (size && o.since + 32 * o.feeds_since > o.L) { bad = true; why = u2s(o.since) + " bytes emitted since the last entropy request with limit " + u2s(o.L); } }
+        else {
+            uint64_t room0 = o.L > used ? o.L - used : 0;
+            uint64_t maxtotal = room0 + (uint64_t)nreq * o.L;          // first segment, nreq-1 full segments, last segment
+            if (size > maxtotal) { bad = true; why = u2s(size) + " bytes returned by one call with " + u2s(nreq) + " entropy requests: more than " + u2s(maxtotal) + " cannot be emitted within limit " + u2s(o.L); }
+            uint64_t before_last = room0 + (uint64_t)(nreq - 1) * o.L;
+            o.since = size > before_last ? size - before_last : 0;  // least the last segment can hold
+            o.feeds_since = 0;
+        }
+        if (bad) report(w, C16, "budget-exceeded", why); else check_pass(w, C16);
+        for (auto &r : o.reqs) r.emitted = -1;                       // positions are not known: the model does not compare them
+    } else
     // --- C16 monitor (API-visible facts only)
     {
         size_t prev = 0; bool bad = false; std::string why;
@@ -1115,7 +1164,7 @@ static void do_trng(World &w, TaskState &t, const Op &op, int index) {
         if (term == 0) {
             if (c.os_calls > 1) bump(w, CT_P_TRNG_SUCCESS_AFTER_RETRY);
             if (rc == 0) report(w, C18, "spurious-failure", "OS call succeeded after " + std::to_string(c.os_calls - 1) + " transient errors but the system source reported failure");
-            else if (memcmp(out.p, c.os_last_ok, 32) != 0) report(w, C18, "wrong-seed-bytes", "system source reported success but the seed differs from the 32 bytes the OS provided");
+            else if (c.os_delivered < 32 || memcmp(out.p, c.os_last_ok, 32) != 0) report(w, C18, "wrong-seed-bytes", "system source reported success but the seed is not the (last) 32 bytes the OS delivered for this request");
             else check_pass(w, C18);
         } else if (term > 0) {
             bump(w, CT_P_TRNG_PERMANENT);
